@@ -334,13 +334,30 @@ structure IterLog where
   candsOk : Bool
   /-- `some (used, cover)` = identified; `none` = unknown (warning + removal) -/
   result : Option (Cover × Cover)
+  /-- the residue handed to `allowed_ptms` / `identify_ptms` in this iteration (`molecule.subgraph(n_idxs - removed)`:
+  the atoms as they are at that moment), its induced edges, the groups of the iteration (`res_ptms`) and the
+  candidate lists recorded from the real matcher, one per allowed option -/
+  res : List Atom := []
+  edges : List (Int × Int) := []
+  groups : List Group := []
+  given : List (List Placement) := []
   deriving Repr, Inhabited
+
+/-- one record at WARNING level (`type='unknown-input'`): the residue names
+`[_residue_name(resid) for resid in sorted(set(resids))]` and, per atom of the (mutated) sets `idxs[0]`,
+its key and the `atomname` it carries at that moment (`'{atomid}-{atomname}'`) -/
+structure WarnRec where
+  residues : List String
+  atoms : List (Int × Option String)
+  deriving Repr, Inhabited, DecidableEq
 
 structure St where
   mol : Mol
   removed : List Int
   warnings : List (List Int)
   log : List IterLog
+  /-- the warning records, one per iteration that ended in `KeyError` (parallel to `warnings`) -/
+  wlog : List WarnRec := []
   deriving Repr, Inhabited
 
 inductive Outcome where
@@ -390,6 +407,28 @@ def dedupInts : List Int → List Int
   | [] => []
   | a :: l => a :: (dedupInts l).filter (· != a)
 
+/-- `str.format` of an attribute value that is a string or `None` -/
+def fmtOpt : Option String → String
+  | some x => x
+  | none => "None"
+
+/-- `_residue_name(resid)`: `'{resname}{resid}'` of the first atom of the residue (in the node order of
+the input, `resid_to_idxs`) that has not been removed, read from the molecule as it is now; `str(resid)` when
+every atom of the residue has been removed (`residue_name_no_fallback`: never the case for a resid of a key).
+A node without `resname` raises KeyError in the code; the model prints `None` (the generators always set it). -/
+def residueName (orig : List Atom) (m : Mol) (removed : List Int) (resid : Int) : String :=
+  match (orig.filter fun a => a.resid == resid).find? (fun a => !removed.contains a.key) with
+  | some a0 =>
+    match m.atom? a0.key with
+    | some a => fmtOpt ((aget a.attrs "resname").getD none) ++ toString resid
+    | none => toString resid
+  | none => toString resid
+
+/-- the record of the warning of one iteration -/
+def warnRec (orig : List Atom) (s : St) (key : List Int) (rm : List Int) : WarnRec :=
+  { residues := (dedupInts key).map (residueName orig s.mol s.removed),
+    atoms := rm.map fun k => (k, ((s.mol.atom? k).map fun a => (nameOf a.attrs).getD none).getD none) }
+
 /-- one iteration of the loop of `fix_ptm`; `orig` = the node list at the start (`resid_to_idxs`) -/
 def step (mods : List Modif) (orig : List Atom) (s : St) (key : List Int) (groups : List Group)
     (given : List (List Placement)) : Outcome :=
@@ -407,10 +446,13 @@ def step (mods : List Modif) (orig : List Atom) (s : St) (key : List Int) (group
     (atoms that merely carry an annotation are known to the residue template: F-C14-5) -/
     let rmF := rm.filter (isFlagged s.mol)
     .done { mol := removeAtoms s.mol rmF, removed := s.removed ++ rmF, warnings := s.warnings ++ [rm],
-            log := s.log ++ [{ key := key, allowedMods := al, candsOk := ok, result := none }] }
+            log := s.log ++ [{ key := key, allowedMods := al, candsOk := ok, result := none,
+                               res := res, edges := edges, groups := groups, given := given }],
+            wlog := s.wlog ++ [warnRec orig s key rm] }
   | .ok used cov =>
     .done { s with mol := { s.mol with atoms := (used ++ cov).foldl (applyOne mods nIdxs) s.mol.atoms },
-                   log := s.log ++ [{ key := key, allowedMods := al, candsOk := ok, result := some (used, cov) }] }
+                   log := s.log ++ [{ key := key, allowedMods := al, candsOk := ok, result := some (used, cov),
+                                      res := res, edges := edges, groups := groups, given := given }] }
 
 def runIters (mods : List Modif) (orig : List Atom) :
     St → List (List Int × List Group) → List (List (List Placement)) → Outcome
